@@ -1,6 +1,7 @@
 package main
 
 import (
+	"sort"
 	"fmt"
 	"go/constant"
 	"go/token"
@@ -631,6 +632,25 @@ func (t *Translator) binop(st *State, in *ssa.BinOp) {
 	}
 }
 
+// returnOrdinal numbers the return statements of the function in source order (1-based); synthetic returns get 0
+func (t *Translator) returnOrdinal(in *ssa.Return) int {
+	var rets []*ssa.Return
+	for _, b := range t.fn.Blocks {
+		for _, i := range b.Instrs {
+			if r, ok := i.(*ssa.Return); ok && r.Pos().IsValid() {
+				rets = append(rets, r)
+			}
+		}
+	}
+	sort.SliceStable(rets, func(i, j int) bool { return rets[i].Pos() < rets[j].Pos() })
+	for i, r := range rets {
+		if r == in {
+			return i + 1
+		}
+	}
+	return 0
+}
+
 func (t *Translator) doReturn(st *State, in *ssa.Return) {
 	pos := t.w.pos(in.Pos())
 	if !in.Pos().IsValid() {
@@ -650,6 +670,39 @@ func (t *Translator) doReturn(st *State, in *ssa.Return) {
 		return
 	}
 	t.cover(st, "return", pos)
+	// ghost assertions attached to this return statement ("before return N:"): proved here, then assumed for the postconditions
+	if len(t.spec.Before) > 0 {
+		if n := t.returnOrdinal(in); n > 0 && len(t.spec.Before[retBase+n]) > 0 {
+			for _, cl := range t.spec.Before[retBase+n] {
+				t.bodyLocals = true
+				env := t.invEnv(st, nil)
+				t.bodyLocals = false
+				env.pre = nil
+				// a function with a single map-range loop: seen(k) / seencount() speak about the keys that loop has visited
+				// (so "every key of the map has been visited" - no early exit - can be asserted at the return)
+				{
+					var only *ssa.Range
+					cnt := 0
+					for _, r := range t.rangeOfNext {
+						if r != nil && r != only {
+							only = r
+							cnt++
+						}
+					}
+					if cnt == 1 {
+						if sv, ok := st.iters[only]; ok {
+							env.seen = sv
+							if mt, isMap := only.X.Type().Underlying().(*types.Map); isMap {
+								env.seenKey = &SType{Go: mt.Key()}
+							}
+						}
+					}
+				}
+				f, _ := env.Eval(cl.E)
+				t.oblige(st, fmt.Sprintf("assert.return%d", n), cl.Label, cl.Tags, f, pos, cl.Src)
+			}
+		}
+	}
 	extra := map[string]binding{}
 	for i, r := range in.Results {
 		var v string
